@@ -5,7 +5,7 @@
 (* every node's state that the replay driver can observe on the real code. *)
 (* Used with `tlc -simulate'; every behaviour prefix is written as JSON.   *)
 (***************************************************************************)
-EXTENDS Raft, Json
+EXTENDS Raft, Json, SequencesExt
 
 CONSTANTS OutDir
 VARIABLE hist
@@ -15,6 +15,19 @@ Proj(s) == [term |-> s.term, vote |-> ToString(s.vote), role |-> s.role,
             pend |-> Cardinality(DOMAIN s.pend), base |-> s.log.base, snap |-> s.snap.idx, cfgi |-> s.cfg.idx]
 Step(a, n, p, v) == hist' = Append(hist, [a |-> a, n |-> ToString(n), p |-> ToString(p), v |-> ToString(v),
                                           post |-> [m \in Node |-> Proj(ns'[m])]])
+
+\* asynchronous grain: the message a step is about (identified by the REQUEST's kind, endpoints and
+\* round, plus whether the step handles the request or its response) and the requests it puts on the wire
+MKind(m) == IF m.kind \in {"rvq", "rvr"} THEN "rv" ELSE "ae"
+MsgId(m) ==
+  LET q == IF m.kind \in {"rvq", "aeq"} THEN m ELSE m.req IN
+  [kind |-> MKind(m), phase |-> IF m.kind \in {"rvq", "aeq"} THEN "req" ELSE "resp", from |-> ToString(q.from), to |-> ToString(q.to),
+   round |-> m.round, pre |-> IF MKind(m) = "rv" THEN q.pre ELSE FALSE, term |-> q.term]
+Spawned == {MsgId(x) : x \in {y \in net' \ net : y.kind \in {"rvq", "aeq"}}}
+StepA(a, n) == hist' = Append(hist, [a |-> a, n |-> ToString(n), p |-> ToString(n), v |-> "",
+                                     post |-> [x \in Node |-> Proj(ns'[x])], spawn |-> SetToSeq(Spawned)])
+StepM(a, m) == hist' = Append(hist, [a |-> a, n |-> MsgId(m).from, p |-> MsgId(m).to, v |-> "",
+                                     post |-> [x \in Node |-> Proj(ns'[x])], m |-> MsgId(m), spawn |-> SetToSeq(Spawned)])
 
 GInit == Init /\ hist = <<>>
 GNext ==
@@ -31,6 +44,15 @@ GNext ==
   \/ \E n, p \in Node : AddServer(n, p, TRUE) /\ Step("AddVoter", n, p, "")
   \/ \E n, p \in Node : AddServer(n, p, FALSE) /\ Step("AddNonVoter", n, p, "")
   \/ \E n, p \in Node : RemoveServer(n, p) /\ Step("RemoveServer", n, p, "")
+  \/ \E n \in Node : AdoptSnapshot(n) /\ Step("AdoptSnapshot", n, n, "")
+  \/ \E n \in Node : TimerFireA(n) /\ StepA("TimerFireA", n)
+  \/ \E n \in Node : StartRound(n) /\ StepA("StartRound", n)
+  \/ \E n \in Node : ClientRead(n) /\ StepA("ClientRead", n)
+  \/ \E m \in net : RVHandle(m) /\ StepM("RVHandle", m)
+  \/ \E m \in net : RVReply(m) /\ StepM("RVReply", m)
+  \/ \E m \in net : AEHandle(m) /\ StepM("AEHandle", m)
+  \/ \E m \in net : AEReply(m) /\ StepM("AEReply", m)
+  \/ \E m \in net : Lose(m) /\ StepM("Lose", m)
 GSpec == GInit /\ [][GNext]_<<vars, hist>>
 
 \* "invariant" with a side effect: the current prefix of behaviour number k goes to t<k>.json
